@@ -22,7 +22,7 @@ MANIFEST = {
             'abstracted by the nondeterministic outcome (C03/C16 look at what is fed to COSE).',
     'ref': '5 C12'}
 BOUNDS = {'quick': dict(security_blocks='0..2 BIB x 0..2 BCB', outcomes='None | code in [12,16] | raise', real_malformations=9),
-          'thorough': dict(security_blocks='0..2 BIB x 0..2 BCB', outcomes='as quick', real_malformations=9)}
+          'thorough': dict(security_blocks='0..3 BIB x 0..3 BCB', outcomes='as quick', real_malformations=9)}
 ASSUMPTIONS = [
     'a security context reports failure by a reason code from the BPSec range 12..16 or by raising',
     'the bundle requests a deletion report to a real endpoint so that the recorded reason is observable',
@@ -36,8 +36,9 @@ SEC_REASONS = (12, 13, 14, 15, 16)
 
 def cases(tier):
     out = []
-    for nbib in (0, 1, 2):
-        for nbcb in (0, 1, 2):
+    top = 2 if tier == 'quick' else 3
+    for nbib in range(top + 1):
+        for nbcb in range(top + 1):
             for accept in (0, 1):
                 if nbib + nbcb == 0 and accept:
                     continue
